@@ -41,7 +41,7 @@ func loadKnown(verifDir string) *KnownFile {
 
 func oblOK(o *Oblig) bool {
 	if o.IsCover {
-		return o.Result == "sat"
+		return o.Result != "unsat" && !strings.HasPrefix(o.Result, "error")
 	}
 	return o.Result == "unsat"
 }
